@@ -101,6 +101,18 @@ func (e *c07env) tm(t, r, shape string) *onet.TreeMarshal {
 	switch shape {
 	case "good":
 		tm.Children = e.trees[src].MakeTreeMarshal().Children
+	case "other":
+		// a well-formed description of another structure over the same servers
+		var ot *onet.Tree
+		switch src {
+		case "K":
+			ot, _ = fix.BuildTree(e.rosters["roK"], []int{-1, 0, 1}, []int{0, 1, 2})
+		case "R":
+			ot, _ = fix.BuildTree(e.rosters["roR"], []int{-1, 0}, []int{1, 0})
+		default:
+			ot, _ = fix.BuildTree(e.rosters["roX"], []int{-1, 0}, []int{1, 0})
+		}
+		tm.Children = ot.MakeTreeMarshal().Children
 	case "unksrv":
 		tm.Children = []*onet.TreeMarshal{{TreeNodeID: onet.TreeNodeID(uuid.New()), ServerIdentityID: network.ServerIdentityID(uuid.New())}}
 	}
@@ -556,7 +568,7 @@ func c07gen(c *h.Ctx, yield func(*h.Case)) {
 	var tms []string
 	for _, t := range []string{"K", "R", "U", "Z"} {
 		for _, ro := range []string{"roR", "roK", "roX", "roZ"} {
-			for _, sh := range []string{"good", "empty", "unksrv"} {
+			for _, sh := range []string{"good", "empty", "unksrv", "other"} {
 				tms = append(tms, fmt.Sprintf("%s %s %s", t, ro, sh))
 			}
 		}
@@ -592,7 +604,7 @@ func c07gen(c *h.Ctx, yield func(*h.Case)) {
 		{"c07 proto none member 1"}, {"c07 proto freshK none 1"}, {"c07 resptree R roR empty roR 1"},
 		{"c07 reqroster roK"}, {"c07 sendroster roR 1", "c07 sendroster roR 1", "c07 treemarshal R roR good"},
 		{"c07 resptree K roK unksrv roK 1"}, {"c07 treemarshal R roR good", "c07 sendroster roR 1"},
-		{"c07 resptree R roR good roR 2"}, {"c07 treemarshal R roX good", "c07 sendroster roX 2"},
+		{"c07 resptree K roK other roK 1"}, {"c07 resptree R roR good roR 2"}, {"c07 treemarshal R roX good", "c07 sendroster roX 2"},
 	} {
 		for _, m := range []string{"direct", "wire-local"} {
 			yield(&h.Case{Class: "corpus", Ops: append([]string{"c07 state idle " + m}, w...)})
